@@ -407,6 +407,24 @@ void h_bitv_model_max(void)
 	VREACH();
 }
 
+/* bitvMax/bitvCount at the word boundaries, BOUNDED and independent of the loop-contract splice: if bitv.c's loops are
+ * rewritten (e.g. as a word scan, as the FIXME in bitvMax suggests) the spliced jobs go undecided, this one still decides.
+ * Whole words of arbitrary bits; nbits (a constant per job) around 64 and 128: a full last word, one bit short, one over. */
+#ifndef BV_NB
+#define BV_NB 64
+#endif
+void h_bitv_model_words(void)
+{
+	INPUT_ARR(BitvWord, rv, 3); INPUT(unsigned long, jx);
+	int nbits = BV_NB;
+	BitvClass c = bitvClassCreate(nbits);
+	Bitv r = rv + (3 - c->nwords);
+	int mx = bitvMax(c, r);
+	CHECK("bitvMax: the result is a member, or -1", mx == -1 || (mx >= 0 && mx < nbits && BV_BIT(r, (unsigned long) mx)));
+	CHECK("bitvMax: no member above the result (ghost bit)", !(jx < (unsigned long) nbits && BV_BIT(r, jx)) || (long) jx <= (long) mx);
+	VREACH();
+}
+
 void h_bitv_model_unique(void)
 {
 	MODEL_SETUP;
